@@ -69,6 +69,9 @@ var sources = []string{
 	"T | summarize count() by ia | where iif(true, now() > 0, isnotnull(ia))",
 	"T; U",
 	"let lo = -1; T | where a > lo",
+	"let w0 = -1; T | where a > w0 and b == w1",
+	"let fresh = -(3); let w2 = +fresh; T | take 3 | where w2 == fresh",
+	"T | where fresh == 1 and w0 == w2",
 	"T | where lo == 1 and hi == 2 and n == 3",
 	"let n = -(2); let m = n * 2; T | take 3 | where x == m",
 	"let hi = +5; let lo = (-(1)); T | where a > lo and a < hi",
@@ -138,10 +141,39 @@ func init() {
 
 func optionSet() []*pql.CompileOptions {
 	shared := &pql.CompileOptions{Parameters: map[string]string{"p": "$1", "a": "{a:Int64}", "k": "?"}}
-	return []*pql.CompileOptions{nil, {}, {Parameters: map[string]string{}}, shared}
+	// the same three among seventeen: a larger map may be handled differently
+	wide := &pql.CompileOptions{Parameters: map[string]string{"p": "$1", "a": "{a:Int64}", "k": "?"}}
+	for i := 0; i < 14; i++ {
+		wide.Parameters[fmt.Sprintf("w%d", i)] = fmt.Sprintf("$%d", 10+i)
+	}
+	return []*pql.CompileOptions{nil, {}, {Parameters: map[string]string{}}, shared, wide}
 }
 
-var optNames = []string{"nil", "zero", "empty-map", "shared{p,a,k}"}
+var optNames = []string{"nil", "zero", "empty-map", "shared{p,a,k}", "shared{p,a,k,w0..w13}"}
+
+// snapshotParams copies every parameter map of an option set.
+func snapshotParams(opts []*pql.CompileOptions) []map[string]string {
+	out := make([]map[string]string, len(opts))
+	for i, o := range opts {
+		if o != nil && o.Parameters != nil {
+			out[i] = map[string]string{}
+			for k, v := range o.Parameters {
+				out[i][k] = v
+			}
+		}
+	}
+	return out
+}
+
+// paramsIntact compares every parameter map with its snapshot.
+func paramsIntact(opts []*pql.CompileOptions, snap []map[string]string) bool {
+	for i, o := range opts {
+		if snap[i] != nil && !reflect.DeepEqual(snap[i], o.Parameters) {
+			return false
+		}
+	}
+	return true
+}
 
 type callID struct {
 	Entry string `json:"e"` // compile parse scan
@@ -222,10 +254,7 @@ func child(args []string) {
 	outFile := args[4]
 	opts := optionSet()
 	shared := opts[3]
-	snapshot := map[string]string{}
-	for k, v := range shared.Parameters {
-		snapshot[k] = v
-	}
+	snapshot := snapshotParams(opts)
 	var started, inFlight, pauseHits atomic.Int64
 	if pause {
 		pql.VerifPauseHook = func(site int) {
@@ -297,7 +326,7 @@ func child(args []string) {
 		if j < 0 {
 			j += len(sources)
 		}
-		seq = append(seq, callID{"compile", j, int(seed+int64(i)) & 3}, callID{"parse", j, 0})
+		seq = append(seq, callID{"compile", j, int((seed+int64(i))%int64(len(optNames))+int64(len(optNames))) % len(optNames)}, callID{"parse", j, 0})
 	}
 	for _, c := range seq {
 		out := doCall(c, opts)
@@ -305,8 +334,11 @@ func child(args []string) {
 		rep.Outputs[h] = out
 		rep.Records = append(rep.Records, record{-1, len(rep.Records), c, h})
 	}
-	rep.ParamsIntact = reflect.DeepEqual(snapshot, shared.Parameters)
+	rep.ParamsIntact = paramsIntact(opts, snapshot)
 	rep.ParamsNow = shared.Parameters
+	if !reflect.DeepEqual(snapshot[4], opts[4].Parameters) {
+		rep.ParamsNow = opts[4].Parameters
+	}
 	rep.InFlightAtInit = inFlight.Load()
 	rep.PauseHits = pauseHits.Load()
 	b, _ := json.Marshal(&rep)
@@ -342,7 +374,7 @@ func seqCalls(seed int64, n int) (srcs []string, opt []int) {
 			}
 		}
 		srcs = append(srcs, s)
-		opt = append(opt, rng.Intn(4))
+		opt = append(opt, rng.Intn(len(optNames)))
 	}
 	return
 }
@@ -366,10 +398,7 @@ func seqChild(args []string) {
 		gen.RNG(seed, "order").Shuffle(n, func(i, j int) { idx[i], idx[j] = idx[j], idx[i] })
 	}
 	opts := optionSet()
-	snapshot := map[string]string{}
-	for k, v := range opts[3].Parameters {
-		snapshot[k] = v
-	}
+	snapshot := snapshotParams(opts)
 	res := make([]string, n)
 	for _, i := range idx {
 		func() {
@@ -383,7 +412,7 @@ func seqChild(args []string) {
 			res[i] = hashOf(fmt.Sprintf("sql=%q err=%v tree=%s perr=%v toks=%v", sql, err, pqlref.Dump(st, 0, true), perr, parser.Scan(srcs[i])))
 		}()
 	}
-	if !reflect.DeepEqual(snapshot, opts[3].Parameters) {
+	if !paramsIntact(opts, snapshot) {
 		res = append(res, "PARAMS-MODIFIED")
 	}
 	b, _ := json.Marshal(res)
